@@ -1,7 +1,7 @@
 (* C07 — A crash during merge or during merge adoption never loses or resurrects data.
    Property theorems only; proofs in proofs/EngineMergeCrash.v, EngineMergeRun.v, EngineAdopt.v. *)
 From KV Require Import Bytes GenConsts Chunk Record Engine Script Crash AMapLemmas EngineInv EngineRefine EngineLog EngineRecover
-  EngineCrash EngineOpen EngineAdopt EngineMerge EngineKeep EngineMergeRun EngineMergeCrash.
+  EngineCrash EngineOpen EngineAdopt EngineMerge EngineKeep EngineMergeRun EngineMergeCrash EngineSync EngineSyncMerge EngineMergeDurable.
 Open Scope N_scope.
 
 (* While Merge is running the marker does not exist yet.  Whatever the merge directory holds at the
@@ -85,6 +85,29 @@ Proof.
   intros d k M c [d1 k1] r1 e1 HG H1. exact (proj1 (step_G d k M (OpRestart c) d1 k1 r1 e1 HG I H1)).
 Qed.
 Print Assumptions C07_later_opens_agree.
+
+(* A finished merge is adoptable only over durable data.  When Merge has written its marker - also when
+   Put and Delete calls of other clients ran between the steps of its scan (any calls, any slots) - every
+   data file of the database is flushed: the files rotated away meanwhile were flushed at rotation and
+   Merge flushes the active file right before it writes the marker.  So every record whose index entry
+   made the scan drop an older version is durable at the moment the older version becomes droppable,
+   and no power loss after the marker can take the newer version away while the adopted merge output no
+   longer holds the older one.  (A batch holds the engine lock from NewBatch to Commit; the flush needs
+   that lock, so it also waits for an open batch to commit - a merge never becomes adoptable while it
+   has seen the index entries of an uncommitted batch.  Defect D29/D30 of the unrepaired tree.) *)
+Theorem C07_finished_merge_leaves_every_data_file_flushed :
+  forall d k M order pro sched d' k' evs,
+  LogInv d M -> SyncInv d -> db_merge_i d k order pro sched = (d', k', None, evs) ->
+  flushed (d_active d') /\ older_flushed d'.
+Proof. exact db_merge_i_durable. Qed.
+Print Assumptions C07_finished_merge_leaves_every_data_file_flushed.
+
+Theorem C07_finished_merge_leaves_every_data_file_flushed_sequential :
+  forall d k order d' k' evs,
+  InvF d -> SyncInv d -> db_merge d k order = (d', k', None, evs) ->
+  flushed (d_active d') /\ older_flushed d'.
+Proof. exact db_merge_durable. Qed.
+Print Assumptions C07_finished_merge_leaves_every_data_file_flushed_sequential.
 
 (* Non-vacuity, on the event-level crash model (Crash.v) that the correspondence run compares with
    the real engine: a history with a merge whose output has several files; the process dies after
